@@ -234,6 +234,8 @@ def run_case(case, text, scratch_dir, raise_guards=False, timeout=10):
     """Execute one case on the real code.  Returns dict(events, ending, nexec, ntraj, records) or
     dict(error=...).  Deterministic unless the program draws (then call under rng.Scripted)."""
     vlog = install_helper(scratch_dir)
+    from scenic.core.dynamics.guards import GuardViolation, PreconditionViolation
+
     try:
         scenario, scene = compile_case(text)
     except Exception as e:
@@ -251,6 +253,9 @@ def run_case(case, text, scratch_dir, raise_guards=False, timeout=10):
         )
     except Timeout:
         return {"error": "timeout", "events": list(vlog.EVENTS)}
+    except GuardViolation as e:
+        kind = "guardpre" if isinstance(e, PreconditionViolation) else "guardinv"
+        return {"events": [list(x) for x in vlog.EVENTS], "ending": ["raised", kind], "nexec": None, "ntraj": None}
     except Exception as e:
         import traceback
 
@@ -272,11 +277,22 @@ def run_case(case, text, scratch_dir, raise_guards=False, timeout=10):
     }
 
 
-def expected_of(out):
+def settle(case, text, scratch_dir, real, raise_guards=False):
+    """A watchdog timeout under machine load must not become a verdict: re-run once, alone, with a
+    generous limit (rule 3 of DESIGN 2.8); only a reproducible timeout is reported."""
+    if real.get("error") == "timeout":
+        return run_case(case, text, scratch_dir, raise_guards=raise_guards, timeout=150)
+    return real
+
+
+def expected_of(out, raise_guards=False):
     """Normalise a Dynamics.tla terminal record into the same shape as run_case's result."""
     ev = [list(e) if isinstance(e, (list, tuple)) else e for e in out["ev"]]
     ending = out["ending"]
     if ending[0] == "rejected":
+        kind = ending[2] if len(ending) > 2 else "reject"
+        if raise_guards and kind in ("guardpre", "guardinv"):
+            return {"events": ev, "ending": ["raised", kind], "nexec": None, "ntraj": None}
         return {"events": ev, "ending": ["rejected"], "nexec": None, "ntraj": None}
     return {"events": ev, "ending": [ending[0], ending[1]], "nexec": out["nexec"], "ntraj": out["ntraj"]}
 
